@@ -74,10 +74,13 @@ static void run_plan(const struct plan *p, struct outcome *o, int verbose)
 		exit(2);
 	}
 	if (pid == 0) {
-		/* identical descriptors 0 in every mode (a broken library may touch it) */
-		int nfd = open("/dev/null", O_RDWR);
+		/* identical standard input and error in every mode, and not the null device, so that a
+		 * child which merely inherits them can be told from one whose streams were redirected */
+		int nfd = open("/dev/zero", O_RDWR);
 		if (nfd > 0) {
 			dup2(nfd, 0);
+			if (!verbose)
+				dup2(nfd, 2);
 			close(nfd);
 		}
 		engine_run(p, -1, verbose);
